@@ -2,12 +2,379 @@
 Require Import Base Sched SchedFacts Engine EngineFacts Feedback.
 From Coq Require Import ZifyBool.
 
-(* evaluating a sink never touches any node's output: the value it captures becomes
-   visible only through the source's own evaluation, in a later cycle *)
-Lemma eval_sink_nodes cfgs i x : g_nodes (f_g (eval_sink cfgs i x)) = g_nodes (f_g x).
+(* ------------------------------------------------------------------ *)
+(* Part 1.  What the evaluation of ONE node can change (frame facts)    *)
+(* ------------------------------------------------------------------ *)
+Section Frame.
+Variable cfgs : list ncfg.
+Notation n := (length cfgs).
+Notation cfg := (EngineFacts.cfg cfgs).
+
+(* node j has an ACTIVE input bound to the output of node src *)
+Definition act_from (src j : nat) : bool :=
+  existsb (fun s => (i_src s =? src)%nat && i_active s) (c_ins (cfg j)).
+
+(* the node under evaluation did not write its output: nobody else's slot moved *)
+Definition quiet (i : nat) (g g' : gst) : Prop :=
+  n_val (node_at i g') = n_val (node_at i g) /\ n_lmt (node_at i g') = n_lmt (node_at i g) /\
+  forall m, m <> i -> slot_at m g' = slot_at m g.
+
+(* it wrote: its output is modified now, and exactly its started active readers are due now *)
+Definition wrote (i : nat) (g g' : gst) : Prop :=
+  n_lmt (node_at i g') = g_now g /\ n_val (node_at i g') <> None /\
+  (forall m, m <> i -> slot_at m g' = slot_at m g \/ (act_from i m = true /\ slot_at m g' = g_now g)) /\
+  (forall m, m <> i -> (m < n)%nat -> (m < length (g_slots g))%nat -> act_from i m = true ->
+             n_started (node_at m g) = true -> slot_at m g' = g_now g).
+
+Record frame (st : bool) (i : nat) (g g' : gst) : Prop := {
+  fr_now : g_now g' = g_now g;
+  fr_ls : length (g_slots g') = length (g_slots g);
+  fr_ln : length (g_nodes g') = length (g_nodes g);
+  fr_nodes : forall m, m <> i -> node_at m g' = node_at m g;
+  fr_started : n_started (node_at i g') = n_started (node_at i g);
+  fr_nst : g_nst g' <= g_nst g;
+  fr_gt : g_now g < g_nst g -> g_now g < g_nst g';
+  fr_out : quiet i g g' \/ (st = true /\ wrote i g g') }.
+
+Lemma frame_refl st i g : frame st i g g.
+Proof. constructor; auto; try lia. left. unfold quiet. repeat split; auto. Qed.
+
+Lemma frame_trans st i g g1 g2 : frame st i g g1 -> frame st i g1 g2 -> frame st i g g2.
 Proof.
-  unfold eval_sink. cbn zeta.
-  destruct (negb (n_started (node_at i (f_g x)))); simpl; auto.
-  destruct (ready (nth i cfgs dflt_cfg) (f_g x)); simpl; auto.
-  destruct (schedule_node_spec (sink_src (nth i cfgs dflt_cfg)) (g_now (f_g x) + MIN_TD) (f_g x)) as (_ & N & _). exact N.
+  intros [A1 A2 A3 A4 A5 A6 A7 A8] [B1 B2 B3 B4 B5 B6 B7 B8].
+  constructor.
+  1-3: congruence.
+  - intros m Hm. rewrite B4, A4; auto.
+  - congruence.
+  - lia.
+  - intros H. rewrite <- A1. apply B7. rewrite A1. auto.
+  - destruct A8 as [(Q1 & Q2 & Q3)|(S1 & W1 & W2 & W3 & W4)]; destruct B8 as [(R1 & R2 & R3)|(S2 & V1 & V2 & V3 & V4)].
+    + left. repeat split; try congruence. intros m Hm. rewrite R3, Q3; auto.
+    + right. split; auto. repeat split; try congruence.
+      * intros m Hm. destruct (V3 m Hm) as [X|[X Y]]; [left; rewrite X; auto|right; split; auto; congruence].
+      * intros m Hm Hn Hl Ha Hs. rewrite <- A1. apply V4; auto; try congruence. rewrite A4; auto.
+    + right. split; auto. repeat split; try congruence.
+      * intros m Hm. rewrite R3 by auto. apply W3; auto.
+      * intros m Hm Hn Hl Ha Hs. rewrite R3 by auto. apply W4; auto.
+    + right. split; auto. repeat split; try congruence.
+      * intros m Hm. destruct (V3 m Hm) as [X|[X Y]].
+        -- rewrite X. apply W3; auto.
+        -- right. split; auto. congruence.
+      * intros m Hm Hn Hl Ha Hs. rewrite <- A1. apply V4; auto; try congruence. rewrite A4; auto.
 Qed.
+
+Lemma frame_emit st i l g : frame st i g (emit l g).
+Proof. constructor; auto; try (simpl; lia). left. unfold quiet. repeat split; auto. Qed.
+
+Lemma frame_set_err st i e g : frame st i g (set_err e g).
+Proof. constructor; auto; try (simpl; lia). left. unfold quiet. repeat split; auto. Qed.
+
+Lemma node_at_upd_gen i f g :
+  node_at i (upd_node i f g) = if (i <? length (g_nodes g))%nat then f (node_at i g) else node_at i g.
+Proof.
+  destruct (i <? length (g_nodes g))%nat eqn:E.
+  - apply node_at_upd_same. apply Nat.ltb_lt; auto.
+  - apply Nat.ltb_ge in E. unfold node_at, upd_node; simpl. rewrite !nth_overflow; auto. rewrite update_length; auto.
+Qed.
+
+Lemma frame_upd st i f g :
+  (forall x, n_val (f x) = n_val x /\ n_lmt (f x) = n_lmt x /\ n_started (f x) = n_started x) ->
+  frame st i g (upd_node i f g).
+Proof.
+  intros H. constructor.
+  - reflexivity.
+  - reflexivity.
+  - unfold upd_node; simpl. apply update_length.
+  - intros m Hm. apply node_at_upd_other; auto.
+  - rewrite node_at_upd_gen. destruct (_ <? _)%nat; auto. apply H.
+  - simpl. lia.
+  - simpl. auto.
+  - left. unfold quiet. rewrite node_at_upd_gen. destruct (_ <? _)%nat; repeat split; auto; apply H.
+Qed.
+
+Lemma frame_sched_self st i w g : frame st i g (schedule_node i w g).
+Proof.
+  destruct (schedule_node_spec i w g) as (N1 & N2 & _).
+  constructor.
+  - exact N1.
+  - apply schedule_node_len.
+  - rewrite N2; auto.
+  - intros m _. apply node_at_schedule_node.
+  - rewrite node_at_schedule_node; auto.
+  - apply schedule_node_nst_le.
+  - apply schedule_node_nst_gt.
+  - left. unfold quiet. rewrite node_at_schedule_node. repeat split; auto. intros m Hm. apply schedule_node_slot_other; auto.
+Qed.
+
+Lemma frame_opt_sched st i p g : frame st i g (opt_schedule i p g).
+Proof. destruct p; simpl; [apply frame_sched_self|apply frame_refl]. Qed.
+
+(* a notification: schedule_node j now *)
+Lemma sched_now_spec j g :
+  let g' := schedule_node j (g_now g) g in
+  g_now g' = g_now g /\ g_nodes g' = g_nodes g /\ g_nst g' = g_nst g /\ g_err g' = g_err g /\
+  length (g_slots g') = length (g_slots g) /\
+  (forall m, m <> j -> slot_at m g' = slot_at m g) /\
+  ((j < length (g_slots g))%nat -> slot_at j g' = g_now g).
+Proof.
+  cbn zeta.
+  destruct (schedule_node_spec j (g_now g) g) as (N1 & N2 & _ & _ & N4). specialize (N4 ltac:(lia)).
+  destruct N4 as (E & Y & _).
+  assert (AP : sn_applies j (g_now g) g = true) by (unfold sn_applies; lia).
+  destruct (Y AP) as [YS YN].
+  replace ((g_now g <? g_now g) && (g_now g <? g_nst g)) with false in YN by lia.
+  repeat split; auto.
+  - apply schedule_node_len.
+  - intros m Hm. apply schedule_node_slot_other; auto.
+  - intros Hj. unfold slot_at. rewrite YS. apply slot_at_set_same; auto.
+Qed.
+
+Lemma notify_spec l : forall j src g,
+  (forall m c, nth_error l m = Some c -> c = cfg (j + m)) ->
+  let g' := notify_from l j src g in
+  g_now g' = g_now g /\ g_nodes g' = g_nodes g /\ g_nst g' = g_nst g /\ g_err g' = g_err g /\
+  length (g_slots g') = length (g_slots g) /\
+  (forall m, slot_at m g' = slot_at m g \/
+             ((j <= m < j + length l)%nat /\ act_from src m = true /\ slot_at m g' = g_now g)) /\
+  (forall m, (j <= m < j + length l)%nat -> (m < length (g_slots g))%nat -> act_from src m = true ->
+             n_started (node_at m g) = true -> slot_at m g' = g_now g).
+Proof.
+  induction l as [|c r IH]; intros j src g Hl; cbn zeta.
+  - simpl. repeat split; auto. intros; simpl in *; lia.
+  - simpl notify_from.
+    assert (Hc : c = cfg j) by (rewrite (Hl 0%nat c eq_refl); f_equal; lia).
+    set (b := existsb (fun s => (i_src s =? src)%nat && i_active s) (c_ins c) && n_started (node_at j g)).
+    set (g1 := if b then schedule_node j (g_now g) g else g).
+    assert (G1 : g_now g1 = g_now g /\ g_nodes g1 = g_nodes g /\ g_nst g1 = g_nst g /\ g_err g1 = g_err g /\
+                 length (g_slots g1) = length (g_slots g) /\
+                 (forall m, m <> j -> slot_at m g1 = slot_at m g) /\
+                 (b = true -> (j < length (g_slots g))%nat -> slot_at j g1 = g_now g) /\
+                 (b = false -> slot_at j g1 = slot_at j g)).
+    { unfold g1. destruct b.
+      - destruct (sched_now_spec j g) as (A & B & C & D & E & F & G). repeat split; auto. discriminate.
+      - repeat split; auto. discriminate. }
+    destruct G1 as (A1 & A2 & A3 & A4 & A5 & A6 & A7 & A8).
+    specialize (IH (S j) src g1).
+    assert (Hl' : forall m c0, nth_error r m = Some c0 -> c0 = cfg (S j + m)).
+    { intros m c0 Hm. rewrite (Hl (S m) c0 Hm). f_equal. lia. }
+    destruct (IH Hl') as (B1 & B2 & B3 & B4 & B5 & B6 & B7).
+    fold b. fold g1.
+    assert (ND : forall m, node_at m g1 = node_at m g) by (intros; unfold node_at; rewrite A2; auto).
+    repeat split; try congruence.
+    + intros m. destruct (B6 m) as [X|(X1 & X2 & X3)].
+      * destruct (Nat.eq_dec m j) as [->|Hne].
+        -- destruct b eqn:Eb.
+           ++ destruct (Nat.lt_ge_cases j (length (g_slots g))) as [Hlt|Hge].
+              ** right. split; [simpl; lia|]. split.
+                 --- unfold b in Eb. apply andb_true_iff in Eb. unfold act_from. rewrite <- Hc. tauto.
+                 --- rewrite X. rewrite A7; auto.
+              ** left. rewrite X. unfold slot_at. rewrite !nth_overflow; auto; lia.
+           ++ left. rewrite X. apply A8; auto.
+        -- left. rewrite X. apply A6; auto.
+      * right. split; [simpl; lia|]. split; auto. congruence.
+    + intros m Hm Hlen Ha Hs. destruct (Nat.eq_dec m j) as [->|Hne].
+      * assert (Eb : b = true).
+        { unfold b. apply andb_true_iff. split; auto. unfold act_from in Ha. rewrite <- Hc in Ha. exact Ha. }
+        destruct (B6 j) as [X|(X1 & _)]; [|lia]. rewrite X. apply A7; auto.
+      * rewrite <- A1. apply B7; auto; try (simpl in Hm; lia). rewrite ND. auto.
+Qed.
+
+(* writing the output and notifying the subscribers *)
+Lemma frame_write i v g :
+  (i < length (g_nodes g))%nat ->
+  frame true i g (notify_from cfgs 0 i (upd_node i (set_out v (g_now g)) g)).
+Proof.
+  intros Hi.
+  set (g1 := upd_node i (set_out v (g_now g)) g).
+  assert (Hl : forall m c, nth_error cfgs m = Some c -> c = cfg (0 + m)).
+  { intros m c Hm. apply (cfgs_nth_error cfgs m c Hm). }
+  destruct (notify_spec cfgs 0%nat i g1 Hl) as (B1 & B2 & B3 & B4 & B5 & B6 & B7).
+  assert (ND : forall m, node_at m (notify_from cfgs 0 i g1) = node_at m g1) by (intros; unfold node_at; rewrite B2; auto).
+  assert (NI : node_at i g1 = set_out v (g_now g) (node_at i g)) by (apply node_at_upd_same; auto).
+  constructor.
+  - rewrite B1. reflexivity.
+  - rewrite B5. reflexivity.
+  - rewrite B2. unfold g1, upd_node; simpl. apply update_length.
+  - intros m Hm. rewrite ND. apply node_at_upd_other; auto.
+  - rewrite ND, NI. reflexivity.
+  - rewrite B3. simpl. lia.
+  - rewrite B3. simpl. auto.
+  - right. split; auto. repeat split.
+    + rewrite ND, NI. reflexivity.
+    + rewrite ND, NI. simpl. discriminate.
+    + intros m Hm. destruct (B6 m) as [X|(_ & X2 & X3)]; [left; exact X|right; split; auto].
+    + intros m Hm Hn Hlen Ha Hs. apply B7; auto; try (simpl; lia).
+      unfold g1. rewrite node_at_upd_other; auto.
+Qed.
+
+Lemma set_sch_keeps s x : n_val (set_sch s x) = n_val x /\ n_lmt (set_sch s x) = n_lmt x /\ n_started (set_sch s x) = n_started x.
+Proof. repeat split. Qed.
+
+(* one operation of user code of node i *)
+Lemma frame_do_op st i opi o g :
+  (i < length (g_nodes g))%nat -> frame st i g (do_op cfgs i st opi o g).
+Proof.
+  intros Hi. unfold do_op. destruct (negb (g_err g =? 0)); [apply frame_refl|]. cbn zeta.
+  destruct o.
+  - destruct (c_sched _); [|apply frame_refl]. destruct (schedule _ _ _ _ _) as [s' p].
+    eapply frame_trans; [|apply frame_emit]. eapply frame_trans; [|apply frame_opt_sched].
+    apply frame_upd; apply set_sch_keeps.
+  - destruct (c_sched _); [|apply frame_refl].
+    eapply frame_trans; [|apply frame_emit]. apply frame_upd; apply set_sch_keeps.
+  - destruct (c_sched _); [|apply frame_refl].
+    eapply frame_trans; [|apply frame_emit]. apply frame_upd; apply set_sch_keeps.
+  - destruct (c_sched _); [|apply frame_refl]. destruct (pop_tag _ _ _) as [s' w].
+    eapply frame_trans; [|apply frame_emit]. apply frame_upd; apply set_sch_keeps.
+  - destruct (c_sched _); [|apply frame_refl].
+    eapply frame_trans; [|apply frame_emit]. apply frame_upd; apply set_sch_keeps.
+  - destruct (c_out _ && st) eqn:E; [|apply frame_refl].
+    assert (st = true) by (apply andb_true_iff in E; tauto). subst st.
+    eapply frame_trans; [|apply frame_emit]. apply frame_write; auto.
+  - apply frame_sched_self.
+  - apply frame_set_err.
+  - apply frame_refl.
+Qed.
+
+Lemma frame_do_ops st i os : forall opi g,
+  (i < length (g_nodes g))%nat -> frame st i g (do_ops cfgs i st opi os g).
+Proof.
+  induction os as [|o r IH]; intros opi g Hi; simpl; [apply frame_refl|].
+  eapply frame_trans; [apply frame_do_op; auto|].
+  apply IH. rewrite (fr_ln _ _ _ _ (frame_do_op st i opi o g Hi)). auto.
+Qed.
+
+Lemma inc_runs_keeps x : n_val (inc_runs x) = n_val x /\ n_lmt (inc_runs x) = n_lmt x /\ n_started (inc_runs x) = n_started x.
+Proof. repeat split. Qed.
+Lemma inc_evals_keeps x : n_val (inc_evals x) = n_val x /\ n_lmt (inc_evals x) = n_lmt x /\ n_started (inc_evals x) = n_started x.
+Proof. repeat split. Qed.
+
+(* node.cpp evaluate_impl of a native node *)
+Lemma frame_eval_node beh i g :
+  (i < length (g_nodes g))%nat -> frame true i g (eval_node cfgs beh i g).
+Proof.
+  intros Hi. unfold eval_node. destruct (negb (n_started (node_at i g))); [apply frame_refl|]. cbn zeta.
+  match goal with |- context [if negb (g_err ?x =? 0) then _ else _] => set (g1 := x) end.
+  assert (F1 : frame true i g g1).
+  { unfold g1. destruct (match c_ins (nth i cfgs dflt_cfg) with [] => true | _ :: _ => ready (nth i cfgs dflt_cfg) g end); [|apply frame_refl].
+    eapply frame_trans; [|apply frame_do_ops; simpl; rewrite update_length; auto].
+    eapply frame_trans; [|apply frame_emit]. apply frame_upd; apply inc_runs_keeps. }
+  destruct (negb (g_err g1 =? 0)); auto.
+  destruct (c_sched (nth i cfgs dflt_cfg)); auto. simpl andb.
+  destruct (is_scheduled_now (g_now g) (n_sch (node_at i g))).
+  - destruct (advance (g_now g) (n_sch (node_at i g1))) as [s' p].
+    eapply frame_trans; [exact F1|].
+    eapply frame_trans; [|apply frame_opt_sched]. apply frame_upd; apply set_sch_keeps.
+  - destruct (is_scheduled (n_sch (node_at i g1))); auto.
+    eapply frame_trans; [exact F1|apply frame_sched_self].
+Qed.
+
+(* node.cpp start_impl: user code runs unstarted, so it cannot write *)
+Lemma set_started_keeps x : n_val (set_started x) = n_val x /\ n_lmt (set_started x) = n_lmt x.
+Proof. repeat split. Qed.
+
+End Frame.
+
+(* ------------------------------------------------------------------ *)
+(* Part 2.  The two feedback callbacks                                  *)
+(* ------------------------------------------------------------------ *)
+Section Callbacks.
+Variable cfgs : list ncfg.
+Notation n := (length cfgs).
+Notation cfg := (EngineFacts.cfg cfgs).
+
+Lemma act_from_source j s : cfg s = source_cfg -> act_from cfgs j s = false.
+Proof. intros H. unfold act_from. rewrite H. reflexivity. Qed.
+
+Lemma act_from_sink j k p s : cfg k = sink_cfg p s -> act_from cfgs j k = true -> j = p.
+Proof.
+  intros H. unfold act_from. rewrite H. simpl. rewrite !andb_false_r, !orb_false_r, andb_true_r.
+  intros E. apply Nat.eqb_eq in E. auto.
+Qed.
+
+Lemma act_from_sink_prod k p s : cfg k = sink_cfg p s -> act_from cfgs p k = true.
+Proof. intros H. unfold act_from. rewrite H. simpl. rewrite Nat.eqb_refl. reflexivity. Qed.
+
+Lemma ready_sink p s g : ready (sink_cfg p s) g = true <-> n_val (node_at p g) <> None.
+Proof.
+  unfold ready, sink_cfg, read_input; simpl.
+  destruct (n_val (node_at p g)); simpl; split; intros; congruence.
+Qed.
+
+Lemma state_at_set_same s (v : option Z) l : (s < length l)%nat -> nth s (set_nth s v l) None = v.
+Proof. intros H. unfold set_nth. rewrite nth_update_same; auto. Qed.
+
+(* evaluate_feedback_source *)
+Lemma eval_source_spec j x :
+  (j < length (g_nodes (f_g x)))%nat -> cfg j = source_cfg ->
+  let x' := eval_source cfgs j x in
+  frame cfgs true j (f_g x) (f_g x') /\ f_st x' = f_st x /\ slot_at j (f_g x') = slot_at j (f_g x) /\
+  (n_started (node_at j (f_g x)) = true ->
+     match state_at j x with
+     | Some v => n_lmt (node_at j (f_g x')) = g_now (f_g x) /\ n_val (node_at j (f_g x')) = Some v
+     | None => n_val (node_at j (f_g x')) = n_val (node_at j (f_g x)) /\ n_lmt (node_at j (f_g x')) = n_lmt (node_at j (f_g x))
+     end).
+Proof.
+  intros Hj Hc. cbn zeta. unfold eval_source. cbn zeta. simpl f_g. simpl f_st.
+  destruct (n_started (node_at j (f_g x))) eqn:St; simpl negb; cbv iota.
+  2:{ split; [apply frame_emit|]. repeat split; auto. discriminate. }
+  destruct (state_at j x) as [v|] eqn:Es.
+  - set (g1 := upd_node j (set_out v (g_now (f_g x))) (f_g x)).
+    assert (Hl : forall m c, nth_error cfgs m = Some c -> c = cfg (0 + m)).
+    { intros m c Hm. apply (cfgs_nth_error cfgs m c Hm). }
+    destruct (notify_spec cfgs cfgs 0%nat j g1 Hl) as (B1 & B2 & B3 & B4 & B5 & B6 & B7).
+    split; [eapply frame_trans; [apply frame_write; auto|apply frame_emit]|].
+    split; auto. split.
+    + change (slot_at j (notify_from cfgs 0 j g1) = slot_at j (f_g x)).
+      destruct (B6 j) as [X|(_ & X & _)]; [exact X|]. rewrite act_from_source in X by auto. discriminate.
+    + intros _. change (n_lmt (node_at j (notify_from cfgs 0 j g1)) = g_now (f_g x) /\ n_val (node_at j (notify_from cfgs 0 j g1)) = Some v).
+      assert (ND : node_at j (notify_from cfgs 0 j g1) = node_at j g1) by (unfold node_at; rewrite B2; auto).
+      rewrite ND. unfold g1. rewrite node_at_upd_same by auto. simpl. auto.
+  - split; [apply frame_emit|]. repeat split; auto.
+Qed.
+
+(* evaluate_feedback_sink *)
+Lemma eval_sink_spec j x pp ss :
+  cfg j = sink_cfg pp ss ->
+  let g := f_g x in let x' := eval_sink cfgs j x in let g' := f_g x' in
+  g_now g' = g_now g /\ g_nodes g' = g_nodes g /\ length (g_slots g') = length (g_slots g) /\
+  length (f_st x') = length (f_st x) /\ g_nst g' <= g_nst g /\ (g_now g < g_nst g -> g_now g < g_nst g') /\
+  (forall m, m <> ss -> slot_at m g' = slot_at m g) /\ (forall m, m <> ss -> state_at m x' = state_at m x) /\
+  ((n_started (node_at j g) = true /\ exists v, n_val (node_at pp g) = Some v /\
+      ((ss < length (f_st x))%nat -> state_at ss x' = Some v) /\
+      ((ss < length (g_slots g))%nat -> slot_at ss g <= g_now g -> g_now g < g_nst g ->
+          slot_at ss g' = g_now g + 1 /\ g_nst g' <= g_now g + 1))
+   \/ ((n_started (node_at j g) = false \/ n_val (node_at pp g) = None) /\
+       state_at ss x' = state_at ss x /\ slot_at ss g' = slot_at ss g)).
+Proof.
+  intros Hc. cbn zeta. unfold eval_sink. fold (cfg j). rewrite Hc. cbn zeta.
+  change (sink_src (sink_cfg pp ss)) with ss. change (sink_prod (sink_cfg pp ss)) with pp.
+  destruct (n_started (node_at j (f_g x))) eqn:St; simpl negb; cbv iota.
+  2:{ simpl. repeat split; auto; try lia; try solve [right; auto]. }
+  destruct (ready (sink_cfg pp ss) (f_g x)) eqn:Er.
+  - apply ready_sink in Er. destruct (n_val (node_at pp (f_g x))) as [v|] eqn:Ev; [|congruence].
+    simpl f_g. simpl f_st.
+    set (g := f_g x).
+    destruct (schedule_node_spec ss (g_now g + MIN_TD) g) as (N1 & N2 & _ & _ & N4).
+    unfold MIN_TD in *. specialize (N4 ltac:(lia)). destruct N4 as (_ & Y1 & Y2).
+    repeat split; auto.
+    + apply schedule_node_len.
+    + unfold set_nth. apply update_length.
+    + apply schedule_node_nst_le.
+    + apply schedule_node_nst_gt.
+    + intros m Hm. apply schedule_node_slot_other; auto.
+    + intros m Hm. unfold state_at; simpl. unfold set_nth. apply nth_update_other; auto.
+    + left. split; auto. exists v. split; auto. split.
+      * intros Hl. unfold state_at; simpl. apply state_at_set_same; auto.
+      * intros Hl Hs Hn.
+        assert (AP : sn_applies ss (g_now g + 1) g = true) by (unfold sn_applies; lia).
+        destruct (Y1 AP) as [YS YN]. split.
+        -- change (slot_at ss (schedule_node ss (g_now g + 1) g) = g_now g + 1).
+           unfold slot_at. rewrite YS. apply slot_at_set_same; auto.
+        -- change (g_nst (schedule_node ss (g_now g + 1) g) <= g_now g + 1).
+           rewrite YN. destruct ((g_now g <? g_now g + 1) && (g_now g + 1 <? g_nst g)) eqn:E; lia.
+  - simpl. repeat split; auto; try lia. right. split; auto.
+    right. destruct (n_val (node_at pp (f_g x))) eqn:Ev; auto.
+    assert (ready (sink_cfg pp ss) (f_g x) = true) by (apply ready_sink; congruence). congruence.
+Qed.
+
+End Callbacks.
